@@ -618,4 +618,8 @@ def calculate_nd_bins(
         )
         for i in range(dim)
     ]
+    # One binning object given for several axes: every axis gets its own (they adapt independently)
+    for i in range(dim):
+        if any(bins[i] is earlier for earlier in bins[:i]):
+            bins[i] = bins[i].copy()
     return bins
